@@ -1036,7 +1036,7 @@ func (c *Ctx) ruleSettable() {
 
 func runC10(c *Ctx) {
 	p, r := c.P, c.R
-	r.Explanation = "Decides that every mutation performed by encrypt.Filter.Process is applied to the private deep copy: MUT is the set of functions of the package that can reach reflect.Value.Set*/SetMapIndex or pointerstructure.Set (computed from the call graph); in Process every call into MUT is dominated by the success edge of the deep-copy call and none of its arguments derives from the original event except through the copy's result; every return of the original event itself (nil payload, all-NoOperation configuration, zero payload) has a nil error and no MUT call before it; no function of the package stores into a field of a Process event parameter. That copystructure.Copy is deep for every shape, and the preservation of the output's shape/lengths/keys, are not decided (third-party semantics, reflection). C10.guards (what dominates the copy), C10.public (no mutation without excluding public), C10.sinks (closed vocabulary of reflective mutations), C10.resweep (a separately tracked nested map is not swept through its parent). C10.every: a tag whose key is absent does not end the walk over the tags (no early success from a handling loop). C10.tagpair / C10.public taggable-field-unconditional: see C09. C10.mut payload-bytes-readonly: no in-place write reaches a byte slice of the original payload. C10.mark skip-identity: as C09.mark. C10.exacttype unwrap-once: no Elem() on a loop-carried value. C10.none: the defaults table has exactly the three classes."
+	r.Explanation = "Decides that every mutation performed by encrypt.Filter.Process is applied to the private deep copy: MUT is the set of functions of the package that can reach reflect.Value.Set*/SetMapIndex or pointerstructure.Set (computed from the call graph); in Process every call into MUT is dominated by the success edge of the deep-copy call and none of its arguments derives from the original event except through the copy's result; every return of the original event itself (nil payload, all-NoOperation configuration, zero payload) has a nil error and no MUT call before it; no function of the package stores into a field of a Process event parameter. That copystructure.Copy is deep for every shape, and the preservation of the output's shape/lengths/keys, are not decided (third-party semantics, reflection). C10.guards (what dominates the copy), C10.public (no mutation without excluding public), C10.sinks (closed vocabulary of reflective mutations), C10.resweep (a separately tracked nested map is not swept through its parent). C10.every: a tag whose key is absent does not end the walk over the tags (no early success from a handling loop). C10.tagpair / C10.public taggable-field-unconditional: see C09. C10.mut payload-bytes-readonly: no in-place write reaches a byte slice of the original payload. C10.mark skip-identity: as C09.mark. C10.exacttype unwrap-once: no Elem() on a loop-carried value. C10.none: the defaults table has exactly the three classes. C10.mark also decides the error flow of filterTaggable: every error of the tag walk, trackTaggable's included, ends the walk (the documented ErrNotFound continue is the one exception)."
 	r.NotDecided = []string{"copystructure.Copy being a deep copy for every payload shape (A4)", "preservation of dynamic type, container lengths and keys in the output (runtime values behind reflection)"}
 	proc := c.Fn("C10.anchor", PkgEncrypt, "Filter", "Process")
 	if proc == nil {
@@ -1341,6 +1341,11 @@ func runC10(c *Ctx) {
 	c.ruleMarkFiltered("C10.mark")
 	c.ruleEveryElement("C10.every")
 	c.ruleTaggableTrackIdentity("C10.mark")
+	// the tracking call is what keeps the sweep away from a value a tag classified public: its failure is
+	// returned (the error-flow rule of C09.prop over filterTaggable under C10)
+	if ft := c.Fn("C10.mark", PkgEncrypt, "Filter", "filterTaggable"); ft != nil {
+		c.errorFlowRule("C10.mark", ft, encryptErrExceptions, false)
+	}
 	c.ruleSkipIdentity("C10.mark")
 	c.ruleTaggableFieldAlways("C10.public")
 	c.ruleTagPairAs("C10.tagpair")
@@ -1397,7 +1402,7 @@ func mentionsOutside(t *Term, s string, cut ssa.Value) bool {
 
 func runC16(c *Ctx) {
 	p, r := c.P, c.R
-	r.Explanation = "Decides the key-selection and framing clauses: encrypt() encrypts exactly its data argument with the per-event wrapper option when present, else the filter's wrapper, and returns \"encrypted:\" + RawURL base64 of the marshalled blob; hmacSha256() derives a 32-byte key with NewDerivedReader(ctx, w, 32, salt, info) where w / salt / info are each the per-event option when non-nil else the filter's field (not swapped), MACs exactly its data argument with HMAC(SHA-256, key) and returns \"hmac-sha256:\" + RawURL base64; Process derives the per-event wrapper from NewEventWrapper(ctx, ef.Wrapper, EventId()) under the lock and hands the three per-event options to every value operation; all reads of Wrapper/HmacSalt/HmacInfo and the cryptographic call lie in one critical section, and Rotate / rotation payloads write them under the write lock (copying salt and info). Decrypt round-trip, HKDF and AEAD correctness are third-party semantics and not decided. Also the derivation shape: NewDerivedReader = LimitedReader{hkdf.New(sha256.New, checked key bytes of the wrapper argument, salt, info), lenLimit}; NewEventWrapper = aead wrapper keyed with ed25519.GenerateKey(NewDerivedReader(ctx, wrapper, >=32, f(eventId), g(eventId))) with every step checked, so the per-event key is a function of (wrapper key, event id) only. C16.forward: every walker hands its own options on. C16.event snapshot: an event with its own wrapper uses salt and info taken together with that wrapper. C16.raw: a value reached through a pointer tag is turned into bytes only by identity-preserving conversions. C16.atomic store-then-error: a rotation that returns an error has replaced none of Wrapper, HmacSalt, HmacInfo. C16.atomic rotation-applied: key material a rotation brings is stored on every successful path. C16.event snapshot-non-nil: the snapshot of the filter's salt / info handed on as the per-event option is non-nil even when the filter has none. C16.derive key-handed-over: the slice handed to the AEAD wrapper is never written in place afterwards. C16.atomic who-may-rotate: only Rotate and the rotation arm store the key material."
+	r.Explanation = "Decides the key-selection and framing clauses: encrypt() encrypts exactly its data argument with the per-event wrapper option when present, else the filter's wrapper, and returns \"encrypted:\" + RawURL base64 of the marshalled blob; hmacSha256() derives a 32-byte key with NewDerivedReader(ctx, w, 32, salt, info) where w / salt / info are each the per-event option when non-nil else the filter's field (not swapped), MACs exactly its data argument with HMAC(SHA-256, key) and returns \"hmac-sha256:\" + RawURL base64; Process derives the per-event wrapper from NewEventWrapper(ctx, ef.Wrapper, EventId()) under the lock and hands the three per-event options to every value operation; all reads of Wrapper/HmacSalt/HmacInfo and the cryptographic call lie in one critical section, and Rotate / rotation payloads write them under the write lock (copying salt and info). Decrypt round-trip, HKDF and AEAD correctness are third-party semantics and not decided. Also the derivation shape: NewDerivedReader = LimitedReader{hkdf.New(sha256.New, checked key bytes of the wrapper argument, salt, info), lenLimit}; NewEventWrapper = aead wrapper keyed with ed25519.GenerateKey(NewDerivedReader(ctx, wrapper, >=32, f(eventId), g(eventId))) with every step checked, so the per-event key is a function of (wrapper key, event id) only. C16.forward: every walker hands its own options on. C16.event snapshot: an event with its own wrapper uses salt and info taken together with that wrapper. C16.raw: a value reached through a pointer tag is turned into bytes only by identity-preserving conversions. C16.atomic store-then-error: a rotation that returns an error has replaced none of Wrapper, HmacSalt, HmacInfo. C16.atomic rotation-applied: key material a rotation brings is stored on every successful path. C16.event snapshot-non-nil: the snapshot of the filter's salt / info handed on as the per-event option is non-nil even when the filter has none. C16.derive key-handed-over: the slice handed to the AEAD wrapper is never written in place afterwards. C16.atomic who-may-rotate: only Rotate and the rotation arm store the key material. C16.atomic cannot-refuse: Rotate has no result and the rotation arm of Process returns a nil error on every path (a rotation is applied, never refused)."
 	r.NotDecided = []string{"decrypt round-trip and HKDF/AEAD correctness (go-kms-wrapping, x/crypto)", "determinism of derived wrappers beyond the arguments passed"}
 	c.lockControls()
 	must := c.MustLocks()
